@@ -45,7 +45,8 @@ CONTRACTS.update({
     props=['C08'], self_fields=CH_FIELDS, params={'data': {'cls': 'SourceDataWrapper', 'fields': {}}}, returns='none',
     requires=[CODE_MATCHES],
     stubs={'__getitem__': dict(returns='opq:ndarray', raises=True, pure=True), '_set_dimension_from_data': dict(returns='none', raises=True)},
-    may_raise=['ValueError'],
+    may_raise=['ValueError'], modifies=['self._cast_dtype', 'self.representation_code._value'],
+    exc_modifies=['self._cast_dtype', 'self.representation_code._value'],
     ensures=[('declared-code-is-the-code-of-the-dtype-written', CODE_MATCHES),
              ('a-cast-dtype-is-known-after-setup', 'self._cast_dtype is not None')]),
 })
@@ -78,8 +79,14 @@ CONTRACTS['ChannelItem._run_checks_and_set_defaults'] = dict(
     params={}, returns='none',
     stubs={'_check_axis_vs_dimension': dict(returns='none', raises=True), 'value.setter': dict(returns='none', capture=True, assign_first_arg_to='_value')},
     may_raise=['RuntimeError', 'StubException'],
+    # frame (C05, C14): the documented write-time defaults and nothing else
+    modifies=['self.element_limit._value', 'self.dimension._value', 'self.long_name._value'],
+    exc_modifies=['self.element_limit._value', 'self.dimension._value', 'self.long_name._value'],
     ensures=[('dimension-given-by-the-user-is-kept', 'implies(old(self.dimension._value) is not None and len(old(self.dimension._value)) > 0, self.dimension._value == old(self.dimension._value))'),
              ('element-limit-given-by-the-user-is-kept', 'implies(old(self.element_limit._value) is not None and len(old(self.element_limit._value)) > 0, self.element_limit._value == old(self.element_limit._value))'),
              ('long-name-given-by-the-user-is-kept', 'implies(old(self.long_name._value) is not None and len(old(self.long_name._value)) > 0, self.long_name._value == old(self.long_name._value))'),
+             # the same clause for the one remaining user value, the empty text (kept apart so that the open finding on it cannot hide
+             # a violation for non-empty names)
+             ('empty-long-name-given-by-the-user-is-kept@C05', 'implies(old(self.long_name._value) is not None and len(old(self.long_name._value)) == 0, self.long_name._value == old(self.long_name._value))'),
              ('default-long-name-is-the-channel-name', 'implies(old(self.long_name._value) is None, self.long_name._value == self.name)'),
              ('default-element-limit-is-the-dimension', 'implies(old(self.element_limit._value) is None and old(self.dimension._value) is not None and len(old(self.dimension._value)) > 0, self.element_limit._value == old(self.dimension._value))')])
